@@ -6,7 +6,7 @@
 (* never hides the rest of the trace.  One line is printed per event that  *)
 (* is not explained by the ideal specification.                            *)
 (***************************************************************************)
-EXTENDS Deviations, PushParser, PushCost, Json, IOUtils
+EXTENDS Deviations, PushText, PushCost, Json, IOUtils
 
 Rec == ndJsonDeserialize(IOEnv.TRACE)
 
@@ -194,6 +194,37 @@ JudgePrint(e, pre) ==
        IN IF bad = {} /\ e.post = pre THEN Blank("ok", "print")
           ELSE Verdict("mismatch", "print", "C11", SetAsSeq(bad), "stack rendering differs (top first, blank separated)")
 
+\* C14: the command-line front end prints EXEC / CODE / INT before every step.  The chain holds the library's
+\* states (validated step by step against Step): ch[1] the state the text was parsed into, ch[2] after the
+\* parse, ch[3] after copy_to_code, ch[3 + j] after j steps.  Block j must render ch[2 + j].
+BlockOK(b, st) ==
+  /\ ((\A i \in 1..Len(st.exec) : ~Fuzzy(st.exec[i])) => b.exec = StackLine(Items(st.exec), WS))
+  /\ ((\A i \in 1..Len(st.code) : ~Fuzzy(st.code[i])) => b.code = StackLine(Items(st.code), WS))
+  /\ b.int = JoinStr([i \in 1..Len(st.int) |-> ToString(st.int[i])], " ")
+JudgeCliLines(e, ch) ==
+  LET bl    == e.ret.blocks
+      steps == Len(ch) - 3                      \* library steps recorded
+      n     == IF Len(bl) < steps THEN Len(bl) ELSE steps
+      libdone == steps >= 1 /\ ch[Len(ch)].done
+      bad   == {j \in 1..n : ~BlockOK(bl[j], ch[2 + j].st)}
+  IN IF Len(ch) < 3 THEN Blank("ok", "cli")
+     ELSE IF bad # {} THEN Verdict("mismatch", "cli", "C14", <<>>, "block " \o ToString(CHOOSE j \in bad : \A k \in bad : j <= k) \o
+                                   " printed by the front end is not the rendering of the library's state before that step")
+     ELSE IF libdone /\ ~e.ret.capped /\ ~(e.ret.done /\ e.ret.code = 0 /\ Len(bl) = steps)
+     THEN Verdict("mismatch", "cli", "C14", <<>>, "the library finished after " \o ToString(steps) \o " steps; the front end printed " \o
+                  ToString(Len(bl)) \o " blocks, exit code " \o ToString(e.ret.code))
+     ELSE IF ~libdone /\ e.ret.done /\ Len(bl) < steps
+     THEN Verdict("mismatch", "cli", "C14", <<>>, "the front end finished although the library had not")
+     ELSE Blank("ok", "cli")
+
+\* extended coverage (no listed property owns it): Display of the whole state
+JudgeStateText(e, pre) ==
+  IF Crashed(e) THEN Verdict("crash", "state_text", "EXT", <<>>, e.post.msg)
+  ELSE IF e.post # pre THEN Verdict("mismatch", "state_text", "EXT", <<>>, "rendering the state changed it")
+  ELSE IF ~TextDecidable(pre) THEN Blank("ok", "state_text")
+  ELSE IF StateTextOK(e.ret, pre, WS) THEN Blank("ok", "state_text")
+  ELSE Verdict("mismatch", "state_text", "EXT", <<>>, "Display of the state differs from the specified text")
+
 VARIABLES l, cur, chain, taint
 vars == <<l, cur, chain, taint>>
 
@@ -228,6 +259,8 @@ Judge(e, pre) ==
          ELSE Verdict("mismatch", "parse", "C03", <<>>, "the parser changed a stack other than EXEC")
     [] e.act.a = "roundtrip" -> JudgeRoundtrip(e, pre)
     [] e.act.a = "print" -> JudgePrint(e, pre)
+    [] e.act.a = "state_text" -> JudgeStateText(e, pre)
+    [] e.act.a = "cli" -> JudgeCliLines(e, chain)
     [] e.act.a = "end" -> JudgeEnd(e, taint)
     [] e.act.a = "run_from_start" -> JudgeRun(e, chain, taint)
     [] OTHER -> Blank("unknown-act", e.act.a)
@@ -240,7 +273,7 @@ Consume ==
          first == HasF(e, "pre")
          pre == IF first THEN e.pre ELSE cur
          j   == Judge(e, pre)
-         keeps == e.act.a \in {"end", "run_from_start", "roundtrip", "print"}     \* events that do not advance the chain
+         keeps == e.act.a \in {"end", "run_from_start", "roundtrip", "print", "state_text", "cli"}     \* events that do not advance the chain
      IN /\ ((j.v # "ok" \/ j.frame # <<>>) => PrintT("EV " \o ToJson([l |-> l, id |-> e.id, i |-> e.i, j |-> j])))
         /\ cur' = IF Crashed(e) \/ e.act.a = "grow" THEN EmptyState ELSE IF keeps THEN pre ELSE e.post
         /\ chain' = IF Crashed(e) \/ e.act.a = "grow" THEN <<>>
